@@ -196,8 +196,14 @@ func uniq(s []string) []string {
 
 // silent reports perturbed routes on which the statement's rules are silent or ambiguous; they are explored
 // (crashes still count elsewhere) but not judged.
+// nonStringAlias stands for a `name` property that is not a string ({ name: 5 }).
+const nonStringAlias = "#5"
+
 func silent(r Route) string {
 	for _, a := range r.Anns {
+		if a.Alias == nonStringAlias {
+			return "wire name that is not a string (the rules speak of names)"
+		}
 		if a.Kind == "Body" {
 			if t := typeOf(r, a.Ref); t != "" {
 				if prim, slice := primitiveLike(t); prim && !slice {
@@ -306,6 +312,13 @@ func perturbations(b Route) []pert {
 				return false
 			}
 			r.Anns[i].Alias = "al"
+			return true
+		}})
+		ps = append(ps, pert{tag + ".alias-non-string", func(r *Route) bool {
+			if i >= len(r.Anns) || r.Anns[i].Alias == nonStringAlias {
+				return false
+			}
+			r.Anns[i].Alias = nonStringAlias
 			return true
 		}})
 		ps = append(ps, pert{tag + ".alias-cleared", func(r *Route) bool {
@@ -477,7 +490,9 @@ func render(id string, r Route) scen.Unit {
 		m.Params = append(m.Params, scen.Param{Name: p.Name, Type: sub(p.Type)})
 	}
 	for _, a := range r.Anns {
-		if a.Alias != "" {
+		if a.Alias == nonStringAlias {
+			m.Extra = append(m.Extra, fmt.Sprintf("// @%s(%s, { name: 5 })", a.Kind, a.Ref))
+		} else if a.Alias != "" {
 			m.Extra = append(m.Extra, fmt.Sprintf("// @%s(%s, { name: %q })", a.Kind, a.Ref, a.Alias))
 		} else {
 			m.Extra = append(m.Extra, fmt.Sprintf("// @%s(%s)", a.Kind, a.Ref))
